@@ -45,7 +45,7 @@ fn default_prune() -> u64 {
     8
 }
 
-pub const KINDS: &[&str] = &["receive", "receive", "spend", "spend", "spend-multi", "spend-all", "spend-too-much", "spend-zero", "block-confirm", "block-confirm", "block-plain", "block-drop", "reorg"];
+pub const KINDS: &[&str] = &["receive", "receive", "spend", "spend", "spend-multi", "spend-all", "spend-too-much", "spend-zero", "block-confirm", "block-confirm", "block-plain", "block-drop", "reorg", "re-add-slip"];
 
 fn gen(seed: u64, tier: Tier) -> Plan {
     let mut rng = Rng::new(seed);
@@ -211,7 +211,7 @@ impl Scenario for C19 {
     fn meta(&self) -> Meta {
         Meta {
             level: "exploration",
-            rule: "run = producer chain (genesis period in {4,5,6,8,100}) and a wallet node (real Blockchain + Wallet) that receives every block; 5..40/150 operations from {block paying the wallet key, wallet builds a payment with random amount and fee through Transaction::create, multi-payment, spend everything, ask for more than the balance, zero payment, next block includes the pending wallet transactions, plain block, block that ignores them, competing fork of depth 1 .. prune depth + 2 that replaces the last blocks (reorganisation, ends the strict ledger comparison as the property states it for chains without one; block bodies older than the prune depth in {1, 2, 3, 8} are dropped from memory, so the deeper reorganisations unwind blocks that must be read back from the simulated disk)}. After every operation: available balance == sum of unspent slips and every unspent key is in the slip table; while no reorganisation happened: the wallet's unspent set == the reference ledger's in-window spendable outputs of the key minus the inputs of wallet-built transactions that are not confirmed; every wallet-built transaction has distinct inputs, outputs <= inputs in u128, and validates against the ledger it was built on. At the end of every run a fresh wallet is filled through Wallet::update_from_balance_snapshot from the node's Blockchain::get_balance_snapshot for the key (the restore path of lite / browser wallets): it must list exactly the ledger's in-window outputs of the key, and a transaction spending its whole balance must validate. One run in ten is the staking family: the wallet of a staking block producer at its own interface - blocks paying it ordinary and stake-typed outputs (Wallet::on_chain_reorganization) and staking transactions of 5000..20000 built with Wallet::create_staking_transaction against stakes of other sizes (the requirement is configuration), so that stakes are assembled from unlocked stake outputs topped up with ordinary ones; the balance/unspent clause and the built-transaction clauses apply. distinct_nontrivial = distinct event sequences with >= 1 spend and >= 1 receive.",
+            rule: "run = producer chain (genesis period in {4,5,6,8,100}) and a wallet node (real Blockchain + Wallet) that receives every block; 5..40/150 operations from {block paying the wallet key, wallet builds a payment with random amount and fee through Transaction::create, multi-payment, spend everything, ask for more than the balance, zero payment, next block includes the pending wallet transactions, plain block, block that ignores them, a slip the wallet already holds handed to it again, competing fork of depth 1 .. prune depth + 2 that replaces the last blocks (reorganisation, ends the strict ledger comparison as the property states it for chains without one; block bodies older than the prune depth in {1, 2, 3, 8} are dropped from memory, so the deeper reorganisations unwind blocks that must be read back from the simulated disk)}. After every operation: available balance == sum of unspent slips and every unspent key is in the slip table; while no reorganisation happened: the wallet's unspent set == the reference ledger's in-window spendable outputs of the key minus the inputs of wallet-built transactions that are not confirmed; every wallet-built transaction has distinct inputs, outputs <= inputs in u128, and validates against the ledger it was built on. At the end of every run a fresh wallet is filled through Wallet::update_from_balance_snapshot from the node's Blockchain::get_balance_snapshot for the key (the restore path of lite / browser wallets): it must list exactly the ledger's in-window outputs of the key, and a transaction spending its whole balance must validate. One run in ten is the staking family: the wallet of a staking block producer at its own interface - blocks paying it ordinary and stake-typed outputs (Wallet::on_chain_reorganization) and staking transactions of 5000..20000 built with Wallet::create_staking_transaction against stakes of other sizes (the requirement is configuration), so that stakes are assembled from unlocked stake outputs topped up with ordinary ones; the balance/unspent clause and the built-transaction clauses apply. distinct_nontrivial = distinct event sequences with >= 1 spend and >= 1 receive.",
             real: &["Wallet::on_chain_reorganization/add_slip/delete_slip/remove_old_slips/generate_slips", "Transaction::create/create_with_multiple_payments/sign/validate", "Blockchain::add_block (wind/unwind drive the wallet)"],
             stubs: &["SimIo", "SimConfig", "producer chain builder"],
             assumptions: &["NFTs are not generated; staking only in the wallet-interface family", "a dropped wallet transaction keeps its inputs committed (the property subtracts pending inputs)"],
@@ -376,6 +376,38 @@ impl Scenario for C19 {
                         }
                         Err(_) => {
                             r.probe("wallet_declined_to_build");
+                        }
+                    }
+                }
+                "re-add-slip" => {
+                    // the embedding application hands a slip back to the wallet that the wallet already holds (the
+                    // wasm binding's add_slip with a saved slip list): one that is committed to a pending transaction,
+                    // or, without pending transactions, an unspent one. Nothing may change
+                    // (only a slip the wallet holds right now: one whose pending transaction went stale because the
+                    // input left the window has been dropped by the wallet, and handing that one back is a new slip)
+                    let held = |s: &saito_core::core::consensus::slip::Slip| -> bool {
+                        let mut c = s.clone();
+                        c.generate_utxoset_key();
+                        block_on(wn.wallet.read()).slips.contains_key(&c.utxoset_key)
+                    };
+                    let cand = pending.iter().flat_map(|t| t.from.iter()).find(|s| s.amount > 0 && held(s)).cloned().or_else(|| {
+                        let w = block_on(wn.wallet.read());
+                        w.unspent_slips.iter().next().and_then(|k| saito_core::core::consensus::slip::Slip::parse_slip_from_utxokey(k).ok())
+                    });
+                    if let Some(mut sl) = cand {
+                        sl.generate_utxoset_key();
+                        let before = { let w = block_on(wn.wallet.read()); (w.get_available_balance(), w.unspent_slips.len()) };
+                        {
+                            let mut w = block_on(wn.wallet.write());
+                            w.add_slip(sl.block_id, sl.tx_ordinal, &sl, true, None);
+                        }
+                        let after = { let w = block_on(wn.wallet.read()); (w.get_available_balance(), w.unspent_slips.len()) };
+                        r.fault("known_slip_handed_to_the_wallet_again", 1);
+                        if before != after {
+                            r.violate(
+                                "C19|re-added-slip-changes-the-wallet",
+                                format!("step {}: handing the wallet a slip it already holds changed balance / unspent count from {:?} to {:?}", step, before, after),
+                            );
                         }
                     }
                 }
